@@ -180,3 +180,24 @@ def t1(ctx):
         verify_contract(ctx, SUITE, c, sentinels=False, replay=replay_ages)
     from contracts import _wf
     _wf.validate(ctx)
+
+
+def replay(ctx, rec):
+    import dendropy
+    from dendropy.utility.error import UltrametricityError
+    w = rec.get("witness", {})
+    if "tree" not in w:
+        print("no input recorded for this obligation")
+        return True
+    prec = eval(w["precision"], {"__builtins__": {}})
+    tree = dendropy.Tree.get(data="[&R] " + w["tree"], schema="newick")
+    try:
+        tree.calc_node_ages(ultrametricity_precision=prec)
+        bad = _age_failures(tree, prec)
+    except UltrametricityError:
+        t2 = dendropy.Tree.get(data="[&R] " + w["tree"], schema="newick")
+        bad = [] if (prec is not None and prec >= 0 and _violated(t2, prec)) else ["rejected although the children agree"]
+    except Exception as e:  # noqa
+        bad = ["raised %s" % type(e).__name__]
+    print("calc_node_ages on %s precision=%r: %s" % (w["tree"], prec, bad or "as specified"))
+    return not bad
